@@ -11,7 +11,17 @@ use std::io::Write;
 use std::path::{Path, PathBuf};
 use std::time::{Duration, Instant};
 
-pub const VERIF_DIR: &str = "/verif";
+/// The /verif directory this binary belongs to: <verif>/harness/target/verif/fv
+pub fn verif_dir() -> PathBuf {
+    if let Ok(d) = std::env::var("FV_VERIF_DIR") {
+        return PathBuf::from(d);
+    }
+    std::env::current_exe()
+        .ok()
+        .and_then(|e| e.ancestors().nth(4).map(|p| p.to_path_buf()))
+        .filter(|p| p.join("properties.jsonl").exists())
+        .unwrap_or_else(|| PathBuf::from("/verif"))
+}
 
 #[derive(Copy, Clone, Debug, PartialEq, Eq, Serialize, Deserialize)]
 pub enum Tier {
@@ -181,7 +191,7 @@ pub struct Known {
 
 impl Known {
     pub fn load() -> Known {
-        let p = Path::new(VERIF_DIR).join("known_findings.json");
+        let p = verif_dir().join("known_findings.json");
         let Ok(s) = std::fs::read_to_string(&p) else {
             return Known::default();
         };
@@ -339,7 +349,7 @@ pub struct ReplayFile {
 }
 
 fn write_replay(prop: &str, sig: &str, msg: &str, case: &Value) -> PathBuf {
-    let dir = Path::new(VERIF_DIR).join("replays");
+    let dir = verif_dir().join("replays");
     std::fs::create_dir_all(&dir).ok();
     let body = serde_json::to_string(case).unwrap();
     let fp = fingerprint(format!("{sig}{body}").as_bytes());
@@ -598,7 +608,7 @@ pub fn parent<P: Prop>(tier: Tier, seed: u64) -> i32 {
     let t0 = Instant::now();
     let plan = P::plan(tier);
     let known = Known::load();
-    let tmp = Path::new(VERIF_DIR)
+    let tmp = verif_dir()
         .join("harness/target/run")
         .join(format!("{}-{}-{}", P::ID, tier.name(), std::process::id()));
     std::fs::create_dir_all(&tmp).unwrap();
@@ -609,7 +619,7 @@ pub fn parent<P: Prop>(tier: Tier, seed: u64) -> i32 {
     // 1. regression replays
     let mut regress_run = 0;
     let mut known_lines = vec![];
-    let rdir = Path::new(VERIF_DIR).join("regress");
+    let rdir = verif_dir().join("regress");
     let mut files: Vec<PathBuf> = std::fs::read_dir(&rdir)
         .map(|d| d.filter_map(|e| e.ok().map(|e| e.path())).collect())
         .unwrap_or_default();
@@ -807,7 +817,7 @@ pub fn parent<P: Prop>(tier: Tier, seed: u64) -> i32 {
         "inconclusive": inconclusive,
         "notes": notes,
     });
-    let edir = Path::new(VERIF_DIR).join("evidence");
+    let edir = verif_dir().join("evidence");
     std::fs::create_dir_all(&edir).ok();
     std::fs::write(
         edir.join(format!("{}.json", P::ID)),
